@@ -23,6 +23,8 @@ def spec_check_wf(env, anns, obs):
         return "violation", "mode inference / the checks do not return: " + obs[:80]
     if c == "PARSE-ERR":
         return "skip", "generated text does not parse"
+    if c == "NOT-RUN":
+        return "skip", "not run"
     lines = TS.type_lines(obs)
     if c == "OK" and any("unset" in l.split(" ", 2)[2] for l in lines):
         return "violation", "an accepted environment still has a type without a mode: " + str(lines)[:200]
@@ -93,7 +95,7 @@ def metamorphic(b, items, impl, seed):
                 e3 = [(n, h if h is not None else modes[n], bdy) for n, h, bdy in e]
                 ann_cases.append((i + "#ann", k, G.render(e3)))
                 meta[i + "#ann"] = (i, e, e3)
-    out = S.run_tool(b.probe, "wf", perm_cases + ann_cases, timeout=1200)
+    out = TS.run_capped(b.probe, "wf", perm_cases + ann_cases, timeout=1200)
     bad = []
     for cid, k, t in perm_cases:
         i, e, e2 = meta[cid]
@@ -126,7 +128,7 @@ def run(b, ps, tier, seed):
     nondet = 0
     if impl:
         # determinism: the same texts once more
-        again = S.run_tool(b.probe, "wf", cases[:400], timeout=600)
+        again = TS.run_capped(b.probe, "wf", cases[:400], timeout=600)
         nondet = sum(1 for i, _, _ in cases[:400] if again.get(i) != impl.get(i))
         if nondet:
             i0 = [i for i, _, _ in cases[:400] if again.get(i) != impl.get(i)][0]
